@@ -659,6 +659,21 @@ def _rest_r11e(ctx, repo, m, meths, ip):
                         construct='%s: %s from %s' % (q_, name_, short(d_, 40)))
     ctx.holds('R11i', m, None, 'no unchecked find() position in the token reader', construct='find() scan', trivial=True)
 
+    # ---- R11j: the reader tokenizes its own string
+    ctx.rule('R11j', 'the token reader takes characters from its own string only (self.s / the `s` it passes on), never from '
+                     'the `s` field of a parsing state, which need not be the string being read', 0)
+    n_ps = 0
+    for q_, f_ in sorted(m.functions.items()):
+        for x_ in iter_own(f_):
+            if isinstance(x_, ast.Attribute) and x_.attr == 's' and isinstance(x_.ctx, ast.Load) and \
+                    'parsing_state' in unparse(x_.value):
+                n_ps += 1
+                ctx.refuted('R11j', m, enclosing_stmt(x_) or x_, '%s reads %s: the text tokenized there is the parsing state\'s '
+                            'string, not the reader\'s -- with a default ParsingState (s=None) the read fails, with another '
+                            'document\'s state the token text and end position come from that document, so the tokens no '
+                            'longer reproduce the input' % (q_, unparse(x_)), construct='%s: %s' % (q_, unparse(x_)))
+    ctx.holds('R11j', m, None, 'no read of <parsing state>.s in the token reader', construct='parsing_state.s scan', trivial=True)
+
     return 'other', (
         'Decides, at every token construction site, that the token has positive width and carries '
         'the peeked whitespace unchanged with positions recomputed consistently; an effect analysis '
